@@ -19,17 +19,17 @@ ASSUMPTIONS = [
     "objective dictionary keys are str ids (documented usage)", "the built-in beta solver (solver=None) is not an oracle and is not exercised",
     "ndint_compress itself is C13's subject; here only the stacking by id is re-derived",
 ]
-BOUNDS = {"quick": "solve: abc explicit/generated, at explicit, conn2/ab generated; select: all 1..2-rule configurators (both id policies)",
+BOUNDS = {"quick": "solve: abc explicit, ab generated / VAR-named, at explicit, conn2/ab generated; select: all 1..2-rule configurators (both id policies)",
           "thorough": "solve: + abt, abct, diamonds, conn2/abc generated; select: + 3-rule configurators"}
 OBJECTIVES = [{}, {"a": 1}, {"a": -1, "b": 2}, {"a": 1, "b": 1, "c": 1, "t": 1}, {"a": -1, "b": -1, "c": -1, "t": -2}, {"B": 3, "a": -1},
               {"nope": 4}, {"c": 2, "t": -1, "A": 1}]
-QUICK = ["abc/explicit", "abc/generated", "ab/varnamed", "at/explicit", "conn2/ab/generated"]
-THOROUGH = QUICK + ["abt/explicit", "abct/explicit", "diamond/explicit", "diamond/generated", "conn2/abc/generated"]
+QUICK = ["abc/explicit", "ab/generated", "ab/varnamed", "at/explicit", "conn2/ab/generated"]
+THOROUGH = QUICK + ["abc/generated", "abt/explicit", "abct/explicit", "diamond/explicit", "diamond/generated", "conn2/abc/generated"]
 
 
 def shards(tier):
     out = [("solve",) + s for s in families.shards_for(QUICK if tier == "quick" else THOROUGH, 500)]
-    from .c14 import cfgs
+    from .c14 import cfgs2 as cfgs
     n = len(cfgs(tier))
     out += [("select", None, lo, min(n, lo + 10)) for lo in range(0, n, 10)]
     return out
@@ -159,7 +159,7 @@ def check_solve(m, fam, k, acc):
 
 
 def check_select(k, tier, acc):
-    from .c14 import cfgs
+    from .c14 import cfgs2 as cfgs
     name, ast = cfgs(tier)[k]
     case = {"kind": "select", "tier": tier, "k": k, "cfg": name}
     clear_caches()
